@@ -79,12 +79,15 @@ def check_calls(ck, an, r, calls, info, what):
     return bad
 
 
-def reference_bin(an, r, j):
-    """Independent reference: windowed, detrended, segment-averaged estimate at f[j], L[j], D[j] (extended precision)."""
+def reference_bin(an, r, j, info=None):
+    """Independent reference: windowed, detrended, segment-averaged estimate at f[j], L[j], D[j] (extended precision),
+    on the record the CALLER passed (not the analyzer's stored copy), whatever layout it was passed in."""
     d = r._data
     L = int(d["L"][j])
+    xs = np.asarray(info["x"], float) if info is not None else np.asarray(an.x1, float)
+    ys = (np.asarray(info["y"], float) if info is not None else np.asarray(an.x2, float)) if an.iscsd else xs
     case = dict(N=an.nx, L=L, starts=[int(s) for s in np.asarray(d["D"][j]).ravel()], order=an.config["order"], w=build_window(an.config, L),
-                omega=2.0 * np.pi * float(d["f"][j]) / float(an.fs), x=np.asarray(an.x1, float), y=np.asarray(an.x2, float) if an.iscsd else np.asarray(an.x1, float), kinds={})
+                omega=2.0 * np.pi * float(d["f"][j]) / float(an.fs), x=xs, y=ys, kinds={})
     ref = K.definition(case, an.iscsd)
     got = (float(d["XX"][j]), float(d["YY"][j]), float(d["XY"][j].real), float(d["XY"][j].imag), float(d["M2"][j]))
     if not an.iscsd:
@@ -150,13 +153,16 @@ def run(ck):
         bad = check_calls(ck, an, res, rec.calls, info, "compute()" if which == "full" else "compute_single_bin()")
         corr_bad += bad
         inp = dict(which=which, backend=backend, cross=info["cross"], kw=info["kw"], fs=info["fs"], N=info["N"], kind=info["kind"])
+        for b_ in bad:
+            if "stored window sums" in b_:      # a clause of the property itself: the analysis that shows it is the failing input
+                ck.violation(b_, inp, tag="window-sums")
         # independent reference on a few bins
         nfb = len(res._data["f"])
         for j in sorted(set([0, nfb - 1, ck.rng.randrange(nfb)])):
             if int(res._data["L"][j]) * int(res._data["K"][j]) > 60000:
                 continue
             nb += 1
-            c, got, ref = reference_bin(an, res, j)
+            c, got, ref = reference_bin(an, res, j, info)
             if c is not None:
                 ck.violation("bin %d (f=%r, L=%d, K=%d): statistic %d is %r but the reference estimator on the result's own plan gives %r" %
                              (j, float(res._data["f"][j]), int(res._data["L"][j]), int(res._data["K"][j]), c, got[c], ref[c]), inp, tag="reference")
